@@ -46,11 +46,22 @@ def lit_text(sign, base, digits):
     return sign + {8: "0", 10: "", 16: "0x"}[base] + "".join("0123456789abcdef"[d] for d in digits)
 
 
-def int_script(text):
-    s = ["newkf 1 x3d x23", "set String 1 - %s %s" % (hx("k"), hx(text))]
+def int_script(text, route=0):
+    """route: how the text gets into the object - 0 econf_setStringValue; 1 a file line k=<text>; 2 the same in double quotes
+    (the stored text is the same: the quotes are not part of the value); 3 in a section, blanks around the delimiter, a trailing
+    comment, asked through the bracketed section name"""
+    g = "-"
+    if route == 0:
+        s = ["newkf 1 x3d x23", "set String 1 - %s %s" % (hx("k"), hx(text))]
+    else:
+        p = ROOT + "/lit/f%d.conf" % route
+        body = {1: "k=%s\n" % text, 2: "k=\"%s\"\n" % text, 3: "# c\n[S]\nk = %s  # unit\n" % text}[route]
+        s = ["file %s %s" % (hx(p), hx(body)), "readfile 1 %s x3d x23" % hx(p)]
+        if route == 3:
+            g = hx("[S]")
     for T in ITYPES:
-        s.append("get %s 1 - %s" % (T, hx("k")))
-        s.append("getdef %s 1 - %s 5" % (T, hx("k")))
+        s.append("get %s 1 %s %s" % (T, g, hx("k")))
+        s.append("getdef %s 1 %s %s 5" % (T, g, hx("k")))
     s.append("free 1")
     return s
 
@@ -222,7 +233,7 @@ def check_c09(exe, tier, seed, verdict):
         verdict.violation("C09:model", {"tlc": r.out[-3000:]}, "TLC: Typed model lemma violated\n" + r.out[-1500:])
     recs = r.json_lines()
     # forward: exported literals
-    cases = [(i, int_script(core.uncodes(x["text"]))) for i, x in enumerate(recs)]
+    cases = [(i, int_script(core.uncodes(x["text"]), i % 4)) for i, x in enumerate(recs)]
     res = core.run_cases(exe, cases)
     n_fwd = 0
     nn = 0
@@ -264,7 +275,7 @@ def check_c09(exe, tier, seed, verdict):
         if base == 10 and nd > 1 and ds[0] == 0:
             ds[0] = rnd.randint(1, 9)
         lits.append((rnd.choice(["", "", "+", "-"]), base, ds))
-    cases = [(i, int_script(lit_text(*l))) for i, l in enumerate(lits)]
+    cases = [(i, int_script(lit_text(*l), (i // 2) % 4)) for i, l in enumerate(lits)]
     res = core.run_cases(exe, cases)
     for i, l in enumerate(lits):
         out = res.get(i)
